@@ -7,7 +7,7 @@ from typing import Any
 
 from sa.kern import make_evaluator, py_calls
 from sa.report import Ctx
-from sa.srcmodel import FuncInfo, Module, func_body
+from sa.srcmodel import desugared, FuncInfo, Module, func_body
 from sa.symterm import Env, Poly, Unsupported
 
 BP = "moptipyapps.binpacking2d."
@@ -790,6 +790,34 @@ def _local_def(fi: FuncInfo, name: str) -> ast.expr | None:
     return d[0].value if len(d) == 1 else None
 
 
+def _cmp_value(t: ast.expr, vals: dict[str, int]) -> bool | None:
+    """The outcome of a comparison of names / integer literals under an
+    assignment of sample values (an abstract evaluation of the syntax tree -
+    nothing of the repository is executed)."""
+    if isinstance(t, ast.UnaryOp) and isinstance(t.op, ast.Not):
+        r = _cmp_value(t.operand, vals)
+        return None if r is None else not r
+    if not (isinstance(t, ast.Compare) and len(t.ops) == 1):
+        return None
+
+    def v(x: ast.expr) -> int | None:
+        if isinstance(x, ast.Name):
+            return vals.get(x.id)
+        if isinstance(x, ast.Constant) and isinstance(
+                x.value, int) and not isinstance(x.value, bool):
+            return x.value
+        return None
+    a, b = v(t.left), v(t.comparators[0])
+    if a is None or b is None:
+        return None
+    op = t.ops[0]
+    for k, f in ((ast.Lt, a < b), (ast.LtE, a <= b), (ast.Gt, a > b),
+                 (ast.GtE, a >= b), (ast.Eq, a == b), (ast.NotEq, a != b)):
+        if isinstance(op, k):
+            return f
+    return None
+
+
 def _bound(repo: Any, fi: FuncInfo, e: ast.expr,
            ren: dict[str, str]) -> Any:
     """A range bound: an int, or ('max', {quantities}) / ('q', quantity)."""
@@ -807,6 +835,25 @@ def _bound(repo: Any, fi: FuncInfo, e: ast.expr,
         parts = [_bound(repo, fi, a, ren) for a in e.args]
         if all(isinstance(x, tuple) and x[0] == "q" for x in parts):
             return (e.func.id, frozenset(x[1] for x in parts))
+    if isinstance(e, ast.IfExp) and isinstance(
+            e.body, ast.Name) and isinstance(e.orelse, ast.Name):
+        # `a if a >= b else b` is max(a, b) (decided on sample values)
+        x_, y_ = e.body.id, e.orelse.id
+        picks = []
+        for vx, vy in ((1, 2), (2, 1), (3, 3)):
+            t_ = _cmp_value(e.test, {x_: vx, y_: vy})
+            if t_ is None:
+                picks = []
+                break
+            picks.append((vx if t_ else vy, max(vx, vy), min(vx, vy)))
+        parts = [_bound(repo, fi, e.body, ren), _bound(repo, fi, e.orelse,
+                                                       ren)]
+        if picks and all(isinstance(x, tuple) and x[0] == "q"
+                         for x in parts):
+            if all(p_[0] == p_[1] for p_ in picks):
+                return ("max", frozenset(x[1] for x in parts))
+            if all(p_[0] == p_[2] for p_ in picks):
+                return ("min", frozenset(x[1] for x in parts))
     return ("?", ast.unparse(e))
 
 
@@ -815,7 +862,7 @@ def _compact_domains(ctx: Ctx) -> None:
     repo = ctx.repo
     mod = repo.module(BP + "instance")
     rd = repo.func(mod.name, "Instance.from_compact_str")
-    new = repo.func(mod.name, "Instance.__new__")
+    new = desugared(repo.func(mod.name, "Instance.__new__"))
     cparams = new.params[1:]               # name, bin_width, bin_height, matrix
     # ---- constructor: quantity -> (lo, hi)
     unpack: list[str] = []
@@ -851,6 +898,11 @@ def _compact_domains(ctx: Ctx) -> None:
             q = a.id
         elif isinstance(a, ast.Name) and a.id in unpack:
             q = f"col{unpack.index(a.id)}"
+        elif isinstance(a, ast.Subscript) and isinstance(
+                a.value, ast.Name) and a.value.id in row_names and isinstance(
+                repo.const_in(new, a.slice), int):
+            # row[IDX_WIDTH] read directly
+            q = f"col{repo.const_in(new, a.slice)}"
         elif isinstance(a, ast.Call) and ast.unparse(a) == \
                 f"len({cparams[-1]})":
             q = "rows"
@@ -981,7 +1033,7 @@ def _compact(ctx: Ctx) -> None:
     mod = repo.module(BP + "instance")
     wr = repo.func(mod.name, "Instance.to_compact_str")
     rd = repo.func(mod.name, "Instance.from_compact_str")
-    new_fi = repo.func(mod.name, "Instance.__new__")
+    new_fi = desugared(repo.func(mod.name, "Instance.__new__"))
     cparams = new_fi.params[1:]
     cols = {nm: repo.const(mod, ast.Name(id=nm)) for nm in (
         "IDX_WIDTH", "IDX_HEIGHT", "IDX_REPETITION")}
